@@ -1775,7 +1775,9 @@ class Union(OR):
         sources = sources or {}
         self._yield_when_false_ = yield_when_false
 
-        if is_caching_enabled() and self._cache_.check(sources):
+        # The cache holds truth values, not which operand an output came from: a union that selects conclusions by that
+        # (next_rule) is evaluated, never replayed.
+        if is_caching_enabled() and not self._selects_conclusions_ and self._cache_.check(sources):
             yield from self.yield_final_output_from_cache(sources)
             return
 
